@@ -637,6 +637,20 @@ def _removal_is_snapshot_keyed(ctx: Ctx, f: FuncInfo, r: Node, eff, susp_before:
         # rebuild by filtering: self._tasks_ended = {k: v for k, v in self._tasks_ended.items() if k not in snapshot / not v.done()}
         val = _assigned_value(ctx, f, r, eff)
         if isinstance(val, (ast.DictComp,)) and val.generators and val.generators[0].ifs:
+            # the dictionary that is filtered is reached through a local bound to the registry BEFORE the suspension: as this very
+            # statement re-binds the attribute, an overlapping call still holds the old dictionary when it resumes and writes back
+            # a registry without whatever was filed in between
+            it0 = val.generators[0].iter
+            if isinstance(it0, ast.Call) and isinstance(it0.func, ast.Attribute) and it0.func.attr in ("items", "keys", "copy") and not it0.args:
+                it0 = it0.func.value
+            if isinstance(it0, ast.Name) and it0.id in sc.defs and it0.id not in sc.params:
+                vals0 = [h[1] for h in sc.defs[it0.id] if h[0] == "assign"] + [h[2] for h in sc.defs[it0.id] if h[0] == "ann"]
+                if len(vals0) == 1 and ctx.eff.paths(r.func).of(vals0[0]) == eff.path:
+                    g_ = ctx.an.cfg(f)
+                    defs_ = [n for n in g_.nodes if n.op == "assign" and n.pred and n.func is r.func
+                             and any(isinstance(t, ast.Name) and t.id == it0.id for t in (n.ast.targets if isinstance(n.ast, ast.Assign) else [n.ast.target]))]
+                    if defs_ and any(can_follow(d, s_) and can_follow(s_, r) for d in defs_ for s_ in susp_before):
+                        return False
             src = ctx.path_at(r, val.generators[0].iter)
             if src == eff.path:
                 cond = ast.unparse(val.generators[0].ifs[0])
@@ -644,6 +658,12 @@ def _removal_is_snapshot_keyed(ctx: Ctx, f: FuncInfo, r: Node, eff, susp_before:
                     return True
                 names = [n.id for n in ast.walk(val.generators[0].ifs[0]) if isinstance(n, ast.Name)]
                 if any(_defined_before(ctx, f, nm, susp_before, r.func) for nm in names):
+                    return True
+                # ... or by a snapshot taken later whose tasks were gathered before the rebuild (same judgement as for keyed pops)
+                cond0 = val.generators[0].ifs[0]
+                if isinstance(cond0, ast.Compare) and len(cond0.ops) == 1 and isinstance(cond0.ops[0], ast.NotIn) and isinstance(cond0.comparators[0], ast.Name) \
+                        and cond0.comparators[0].id in sc.defs and _snapshot_gathered(ctx, f, r, cond0.comparators[0].id, eff) is True \
+                        and ctx.eff.paths(r.func).is_copy(cond0.comparators[0]):
                     return True
             return None
         if isinstance(val, (ast.Dict, ast.Call)) and not (isinstance(val, ast.Dict) and val.keys):
@@ -1421,3 +1441,48 @@ def r_counters(ctx: Ctx, rule: str, names=("num_running", "num_cancelled", "num_
                     why = "cannot classify the computation"
                 rep.ob(rule, f"{nm} is the size of {fld}", ok, func=f, construct=r, detail=why)
     rep.floor(rule, "counter properties", n, len(names))
+
+
+def r_published_before_first_step(ctx: Ctx, rule: str) -> None:
+    """PUBLISHED-BEFORE-FIRST-STEP (F10).  `create_task` may run the first step of the coroutine inside the call: a loop whose task
+    factory is asyncio.eager_task_factory (Python >= 3.12) does.  The creator files the new task as running only AFTER create_task
+    returned (it needs the Task object), while the task's body - reachable from the wrapper's entry without any guaranteed
+    suspension, the user coroutine may finish in its first step - takes the task OUT of that registry in _task_ending: under an
+    eager factory the ending runs first, finds nothing, raises before it releases the slot, and the creator then files a finished
+    task as running.  Discharged only by a creation that cannot start eagerly (`eager_start=False`)."""
+    rep = ctx.rep
+    rep.rule(rule, "PUBLISHED-BEFORE-FIRST-STEP: the new task is filed in the running registry before any step of its body can run; "
+                   "`self._tasks_running[id] = create_task(...)` files it after the call, and with an eager task factory "
+                   "(asyncio.eager_task_factory) the body of a coroutine that finishes in its first step - _task_ending included - has run by then")
+    sites = wrapper_sites(ctx)
+    rep.floor(rule, "create_task(_task_wrapper(...)) sites", len(sites), 1)
+    for site in sites:
+        f = site.root if site.root is not None else site.func
+        g = ctx.an.cfg(f)
+        call: ast.Call = site.ast
+        lazy = any(kw.arg == "eager_start" and isinstance(kw.value, ast.Constant) and kw.value.value is False for kw in call.keywords)
+        if lazy:
+            rep.ob(rule, "the task cannot start inside create_task (eager_start=False)", True, node=site)
+            continue
+        # registry inserts that follow the creation without a suspension of the creator in between
+        later = [m for m in g.nodes if m.pred and (m.stmt is site.stmt or (can_follow(site, m) and not any(ctx.effective(x) for x in between([site], [m]))))
+                 and any(e.kind == "insert" and field_of(e.path) == "_tasks_running" for e in ctx.eff.of_node(m))]
+        earlier = [m for m in g.nodes if m.pred and can_follow(m, site) and m.stmt is not site.stmt
+                   and any(e.kind == "insert" and field_of(e.path) == "_tasks_running" for e in ctx.eff.of_node(m))]
+        if earlier and not later:
+            rep.ob(rule, "the task is filed as running before it is created", True, node=site)
+            continue
+        # does the body reach its own removal from the registry without a guaranteed suspension?
+        _arg, body_fns = coro_of(ctx, site)
+        early_end = False
+        for t in body_fns or []:
+            tg = ctx.an.cfg(t)
+            sure = {n for n in tg.nodes if ctx.is_ext_await(n, "sleep")}
+            seen = reach([tg.entry], lambda a, b, l: l[0] in ("n", "T", "F", "x", "c"), avoid=sure)
+            if any(e.kind == "remove" and field_of(e.path) == "_tasks_running" for m in seen for e in ctx.trans_effects(m)):
+                early_end = True
+        rep.ob(rule, "no step of the new task that takes it out of the running registry can run before the creator has filed it there",
+               (not early_end) if later else None, func=f, construct="create_task(...) evaluated before the task is filed as running",
+               detail="" if not early_end else "with asyncio.eager_task_factory a coroutine that finishes in its first step reaches _task_ending inside create_task: "
+                                               "the pop from the running registry raises KeyError before the slot is released, no callback fires, and the finished "
+                                               "task is then filed as running for good")
